@@ -116,6 +116,11 @@ pub fn dedent(s: &str) -> String {
     // We then continue looking through the remaining lines to
     // possibly shorten the prefix.
     for line in &mut lines {
+        // Whitespace-only lines do not influence the prefix.
+        if line.chars().all(|c| c.is_whitespace()) {
+            continue;
+        }
+
         let mut whitespace_idx = line.len();
         for ((idx, a), b) in line.char_indices().zip(prefix.chars()) {
             if a != b {
